@@ -1,3 +1,5 @@
+import SlipVerif.Model.LoadForm
 import SlipVerif.Model.Num
+import SlipVerif.Driver.LoadForm
 import SlipVerif.Driver.Num
 import SlipVerif.Driver.Util
